@@ -298,4 +298,89 @@ theorem last_step (mac : MacFn) (net : Net) (now src dst : Nat) (cd pr p : Bool)
   rw [hing] at this
   exact this
 
+/-- the AS where two segments meet (no peering): the last hop of the first segment (always
+    traversed against construction direction) and the first hop of the second are validated by the
+    same router, the packet leaves over the egress interface of the second -/
+theorem xover_step (mac : MacFn) (net : Net) (now src dst : Nat) (cd2 : Bool)
+    (ts1 seg1 ts2 seg2 a i : Nat) (h1 h2 : Hop) (t2 : List Hop)
+    (before : List Seg) (done : List Hop) (after2 : List Seg) (fi f : Iface)
+    (hb : ∀ s ∈ before, s.hops.length ≠ 1) (ha : ∀ s ∈ after2, s.hops.length ≠ 1)
+    (hdone : done ≠ []) (ht2 : t2 ≠ [])
+    (hi0 : i ≠ 0) (hi : i = h1.cEg) (hsrc : a ≠ src) (hdst : a ≠ dst)
+    (hmac1 : macOk mac (net a).key ⟨false, false, updateSegID seg1 (pfx h1.mac), ts1⟩ h1 = true)
+    (hexp1 : expired now ts1 h1.exp = false) (hia1 : h1.inAlert = false) (hea1 : h1.egAlert = false)
+    (hmac2 : macOk mac (net a).key ⟨cd2, false, seg2, ts2⟩ h2 = true)
+    (hexp2 : expired now ts2 h2.exp = false) (hia2 : h2.inAlert = false) (hea2 : h2.egAlert = false)
+    (hfi : (net a).iface i = some fi)
+    (hf : (net a).iface (outSide cd2 h2) = some f) (ho0 : outSide cd2 h2 ≠ 0) (hup : f.up = true)
+    (hown : f.owner = 0) (hlt : ltXover fi.lt f.lt = true) :
+    routerStep mac (cfgOf net a) now (.ext i) (a == src) (a == dst)
+        ⟨before, ⟨false, false, seg1, ts1⟩, done, h1, [], ⟨⟨cd2, false, seg2, ts2⟩, h2 :: t2⟩ :: after2⟩ =
+      .forward (outSide cd2 h2)
+        (mkCur (before ++ [⟨⟨false, false, updateSegID seg1 (pfx h1.mac), ts1⟩, done ++ [h1]⟩])
+          ⟨cd2, false, egSeg cd2 seg2 h2, ts2⟩ [h2] t2 after2) := by
+  have hsl : (a == src) = false := by simp [hsrc]
+  have hdl : (a == dst) = false := by simp [hdst]
+  rw [hsl, hdl]
+  have hing : ingUpd ⟨before, ⟨false, false, seg1, ts1⟩, done, h1, [],
+        ⟨⟨cd2, false, seg2, ts2⟩, h2 :: t2⟩ :: after2⟩ (.ext i) false =
+      ⟨before, ⟨false, false, updateSegID seg1 (pfx h1.mac), ts1⟩, done, h1, [],
+        ⟨⟨cd2, false, seg2, ts2⟩, h2 :: t2⟩ :: after2⟩ := by
+    simp [ingUpd, Arrival.ifid, hi0]
+  have hst : stIngress mac (cfgOf net a) now (.ext i) false false
+      ⟨before, ⟨false, false, seg1, ts1⟩, done, h1, [], ⟨⟨cd2, false, seg2, ts2⟩, h2 :: t2⟩ :: after2⟩ =
+      .ok ⟨ingUpd ⟨before, ⟨false, false, seg1, ts1⟩, done, h1, [],
+        ⟨⟨cd2, false, seg2, ts2⟩, h2 :: t2⟩ :: after2⟩ (.ext i) false, false⟩ := by
+    apply stIngress_pass
+    · have := hasSingleton_false before ⟨false, false, seg1, ts1⟩ done h1 []
+        (⟨⟨cd2, false, seg2, ts2⟩, h2 :: t2⟩ :: after2) hb
+        (by
+          intro s hs
+          simp only [List.mem_cons] at hs
+          rcases hs with rfl | hs
+          · cases t2 <;> simp_all
+          · exact ha s hs)
+        (by cases done <;> simp_all)
+      simp [this]
+    · simp [determinePeer]
+    · rw [hing]; exact hexp1
+    · intro _; rw [hing]; simp only [Arrival.ifid]; simpa using hi
+    · simp [Arrival.ifid, hi0]
+    · simp [Arrival.ifid, hi0]
+    · rw [hing]; simp [Arrival.ifid, hi0, Cursor.isLastHop]
+    · rw [hing]; exact hmac1
+    · rw [hing]; simp [hia1, hea1]
+  rw [hing] at hst
+  have := routerStep_xover mac (cfgOf net a) now (.ext i) false
+    ⟨before, ⟨false, false, seg1, ts1⟩, done, h1, [], ⟨⟨cd2, false, seg2, ts2⟩, h2 :: t2⟩ :: after2⟩
+    ⟨before ++ [⟨⟨false, false, updateSegID seg1 (pfx h1.mac), ts1⟩, done ++ [h1]⟩],
+      ⟨cd2, false, seg2, ts2⟩, [], h2, t2, after2⟩ f
+    (mkCur (before ++ [⟨⟨false, false, updateSegID seg1 (pfx h1.mac), ts1⟩, done ++ [h1]⟩])
+          ⟨cd2, false, egSeg cd2 seg2 h2, ts2⟩ [h2] t2 after2)
+  rw [hing] at this
+  have heo : egressOf ⟨before ++ [⟨⟨false, false, updateSegID seg1 (pfx h1.mac), ts1⟩, done ++ [h1]⟩],
+      ⟨cd2, false, seg2, ts2⟩, [], h2, t2, after2⟩ = outSide cd2 h2 := by
+    cases cd2 <;> rfl
+  rw [heo] at this
+  apply this hst
+  · simp [Cursor.isXover]
+  · simp [Cursor.incPath]
+  · exact hexp2
+  · exact hmac2
+  · simp only [egressIface]
+    have : (outSide cd2 h2 == 0) = false := by simp [ho0]
+    rw [this]; simp only [Bool.false_eq_true, if_false]; exact hf
+  · exact hown
+  · simpa [Arrival.ifid] using hi0
+  · simp only [ingressLT, Arrival.ifid, cfgOf_iface, hfi]; exact hlt
+  · cases cd2 <;> simp [hia2, hea2]
+  · exact hup
+  · have : egUpd ⟨before ++ [⟨⟨false, false, updateSegID seg1 (pfx h1.mac), ts1⟩, done ++ [h1]⟩],
+          ⟨cd2, false, seg2, ts2⟩, [], h2, t2, after2⟩ false =
+        ⟨before ++ [⟨⟨false, false, updateSegID seg1 (pfx h1.mac), ts1⟩, done ++ [h1]⟩],
+          ⟨cd2, false, egSeg cd2 seg2 h2, ts2⟩, [], h2, t2, after2⟩ := by
+      cases cd2 <;> simp [egUpd, egSeg]
+    rw [this]
+    exact incPath_mkCur _ _ [] h2 t2 after2 ht2
+
 end Scion.Net
